@@ -184,15 +184,18 @@ ConInit ==
        /\ gT = ConPrimTypes[i]
        /\ gEnv = ConEnvFor(td, ConPrimTypes[i])
 
-ConWrap ==
+\* wrap the current type; at depth 0 of the reduced (quick) tables only the carriers cs
+ConWrapFor(cs) ==
   /\ gDepth < MaxDepth
-  /\ (gDepth = 0 /\ ~Rich) => IsConCarrier(gT)
+  /\ (gDepth = 0 /\ ~Rich) => \E h \in 1..Len(cs) : cs[h] = gT
   /\ LET ws == ConWraps(gEnv, gT) IN
        \E i \in 1..Len(ws) :
          /\ LegalWrap(gEnv, ws[i])
          /\ gT' = ws[i]
   /\ gDepth' = gDepth + 1
   /\ UNCHANGED gEnv
+
+ConWrap == ConWrapFor(ConCarriers)
 
 ConNext == ConWrap \/ NameAndRefer \/ CloseRecursion
 
